@@ -695,8 +695,21 @@ def put_back(pairs, restored_ids=[]):
 def collect(x, seen={}):
     seen[x.id] = x
     return seen
+class Writer:
+    def __init__(self, flag, output={}):
+        self.flag = flag
+        self.output = output
+    def write(self, obj):
+        self.output.setdefault(obj.kind, {})[obj.id] = obj
 '''
 _MD_NEGATIVE = '''
+class Writer:
+    def __init__(self, flag, output=None, names=[]):
+        self.output = {} if output is None else output
+        self.names = names
+    def write(self, obj):
+        self.output.setdefault(obj.kind, {})[obj.id] = obj
+        return obj.name in self.names
 def put_back(pairs, restored_ids=None):
     restored_ids = [] if restored_ids is None else restored_ids
     for previous, new in pairs:
@@ -746,6 +759,27 @@ def mutated_defaults(tree):
                 if hit:
                     out.append((fn, a.arg, n, d))
                     break
+            else:
+                # the default kept on the object (`self.x = param`) and mutated through that attribute by the class
+                cls = getattr(fn, "_parent", None)
+                if not isinstance(cls, ast.ClassDef) or not fn.args.args:
+                    continue
+                me = fn.args.args[0].arg
+                kept = [n.targets[0].attr for n in ast.walk(fn) if isinstance(n, ast.Assign) and len(n.targets) == 1
+                        and isinstance(n.targets[0], ast.Attribute) and isinstance(n.targets[0].value, ast.Name)
+                        and n.targets[0].value.id == me and isinstance(n.value, ast.Name) and n.value.id == a.arg]
+                for x in kept:
+                    def on_attr(e):
+                        return isinstance(e, ast.Attribute) and e.attr == x and isinstance(e.value, ast.Name) \
+                            and e.value.id in ("self", me)
+                    mut = next((n for m in cls.body if isinstance(m, ast.FunctionDef) for n in ast.walk(m) if (
+                        isinstance(n, ast.Call) and isinstance(n.func, ast.Attribute) and n.func.attr in _GROW | {"setdefault"}
+                        and on_attr(n.func.value)) or (isinstance(n, (ast.Assign, ast.AugAssign)) and any(
+                            isinstance(t, ast.Subscript) and on_attr(t.value)
+                            for t in (n.targets if isinstance(n, ast.Assign) else [n.target])))), None)
+                    if mut is not None:
+                        out.append((fn, a.arg, mut, d))
+                        break
     return out
 
 
@@ -766,10 +800,10 @@ def r_mutdef(E):
                 f"model — to the next", rel, n.lineno, fn.name, {"clauses": _area(rel)}))
     pos = mutated_defaults(set_parents(ast.parse(_MD_POSITIVE)))
     neg = mutated_defaults(set_parents(ast.parse(_MD_NEGATIVE)))
-    if len(pos) != 2 or neg:
-        raise AnalysisError(f"R-MUTDEF: embedded examples: {len(pos)} of 2 positive recognised, {len(neg)} false reports")
-    res.instances += 2
-    res.samples = [{"embedded_positive_examples_recognised": 2, "embedded_twins_silent": True}]
+    if len(pos) != 3 or neg:
+        raise AnalysisError(f"R-MUTDEF: embedded examples: {len(pos)} of 3 positive recognised, {len(neg)} false reports")
+    res.instances += 3
+    res.samples = [{"embedded_positive_examples_recognised": 3, "embedded_twins_silent": True}]
     res.floor = 20
     return res
 
